@@ -24,9 +24,18 @@ def superimposed (ms : List Rep) : Bool :=
   dup (idx (fun r => match r with | .byteT i _ => some i | _ => none)) ||
   dup (idx (fun r => match r with | .itemT i _ => some i | _ => none))
 
-/-- keep the first sugar tuple at each index -/
+/-- byte tuples whose indices leave a gap (`KF-bytes-holes`: a byte array cannot have holes, `asBytes` fills them with 0) -/
+def bytesHoles (ms : List Rep) : Bool :=
+  let idx := (ms.filterMap (fun r => match r with | .byteT i _ => some i | _ => none)).eraseDups
+  match idx with
+  | [] => false
+  | _ => (Impl.maxI idx - Impl.minI idx + 1).toNat != idx.length
+
+/-- keep the first sugar tuple at each index, and only byte tuples that extend a gap-free run -/
 def dropSuperimposed (vs : List Val) : List Val :=
-  (vs.foldl (fun acc v => if superimposed ((acc.map (·.rep)) ++ [v.rep]) then acc else acc ++ [v]) [])
+  (vs.foldl (fun acc v =>
+    let ms := (acc.map (·.rep)) ++ [v.rep]
+    if superimposed ms || bytesHoles ms then acc else acc ++ [v]) [])
 
 def ofLitVal (l : Lit) : Val := ⟨l.src, Impl.ofLit l⟩
 
@@ -156,7 +165,8 @@ def cmpObs (reps : List Rep) : String :=
 
 def mkCmp (id stratum : String) (vs : List Val) : Case :=
   let obs := cmpObs (vs.map (·.rep))
-  let cls := if superimposed (vs.map (·.rep)) then "KF-superimposed" else "good"
+  let cls := if superimposed (vs.map (·.rep)) then "KF-superimposed"
+    else if bytesHoles (vs.map (·.rep)) then "KF-bytes-holes" else "good"
   { id := id, cls := cls, kind := "cmp", stratum := stratum, model := obs, spec := obs, payload := vs.map (·.src) }
 
 def ctorName : Rep → String
